@@ -48,6 +48,8 @@ type Plan struct {
 	// C06: after the main run, a validly signed header with a wrong PrevStateRoot is recorded ahead of the blocks
 	HeadersFirst bool `json:"headers_first,omitempty"`
 	KnownHeader  bool `json:"known_header,omitempty"` // C06: genuine header recorded ahead of the block, block with another witness
+	// C06: after the main run a block carrying a transaction named by on-chain Conflicts attributes is delivered
+	ConflictAttack bool `json:"conflict_attack,omitempty"`
 	// TailSeed seeds the decision stream that answers once the explicit tape is used up (0: every further decision is
 	// the default one - no optional fault, no optional check)
 	TailSeed uint64 `json:"plan_tail_seed,omitempty"`
@@ -182,6 +184,7 @@ type run struct {
 	flats        map[uint32]*flatState
 	soft         *sim.Violation // recorded-finding class seen in this run (reported only if nothing else fails)
 	c06Delivered bool
+	c06Victim    *transaction.Transaction
 }
 
 func (r *run) violate(v *sim.Violation) {
